@@ -147,6 +147,8 @@ type dVariant struct {
 	// OddRoute: a collection is answered under the URL of one resource (and one resource under the URL
 	// of a collection): the URL is the caller's, whatever it says
 	OddRoute bool `json:"oddroute"`
+	// NamedID: the wrapped structs of this world have an ID field of a defined string type (Check accepts it)
+	NamedID bool `json:"namedid"`
 }
 
 type dCase struct {
@@ -172,6 +174,7 @@ var idMaps = [][2]string{
 	{"\\u003c", "\\u0026"},     // a literal backslash before u003c: the text of a JSON escape
 	{" ", "\n"},                // white space at the edges
 	{"./../", "//.."},          // dot segments and doubled slashes: an id is not a path to be cleaned
+	{"", "/"},                  // an id that ends in a slash: its links end in one too, and are links all the same
 	{"#numeric", ""},           // numbers, several of them equal as numbers ("7", "07", "007"): see numericIDs
 }
 
@@ -261,7 +264,7 @@ type docWorld struct {
 }
 
 func newDocWorld(v dVariant, seed int64) *docWorld {
-	w := &docWorld{v: v, km: kindMap{Shift: v.Shift}, tb: tableFor(v.Table, seed), schema: &jsonapi.Schema{}}
+	w := &docWorld{v: v, km: kindMap{Shift: v.Shift, NamedID: v.NamedID && v.Impl == "wrap"}, tb: tableFor(v.Table, seed), schema: &jsonapi.Schema{}}
 	// the schema object has a history: a type stood in front of the others and one behind them for a
 	// while, were looked up, and the one in front went away again (the others moved up)
 	must(w.schema.AddType(jsonapi.Type{Name: "aa0"}))
@@ -1482,6 +1485,9 @@ func docMain(args []string) {
 		v := dVariant{Impl: []string{"soft", "wrap"}[rng.Intn(2)], Shift: rng.Intn(len(nonBool)), Table: rng.Intn(3),
 			Prefix: prefixes[rng.Intn(len(prefixes))], Meta: rng.Intn(len(metaClasses)), IDMap: rng.Intn(len(idMaps)), Reps: *reps,
 			NoFrom: rng.Intn(3) == 0, EmptyTok: []string{"", "", "", "v", "u"}[rng.Intn(5)], Query: rng.Intn(len(docQueries))}
+		if v.NamedID = v.Impl == "wrap" && rng.Intn(3) == 0; v.NamedID {
+			stt.class("wrapped-structs-with-a-named-id-type")
+		}
 		if v.Served = rng.Intn(4) == 0; v.Served {
 			stt.class("served-a-narrower-request-before")
 		}
